@@ -30,7 +30,20 @@ func VerifC15Failures() {
 	c := vClient(false)
 	kv := nd.StringN("k.v", 1)
 	nd.Assert(vPut(c, vItem{"p": vS("k"), "v": vS(kv)}) == nil, "setup-put")
+	// a second table, for batches that span tables
+	nd.Assert(AddTable(vCtx, c, "tb2", "p", "") == nil, "setup-addtable2")
+	_, perr := c.PutItem(vCtx, &dynamodb.PutItemInput{TableName: aws.String("tb2"), Item: vItem{"p": vS("k2"), "v": vS(kv)}})
+	nd.Assert(perr == nil, "setup-put2")
+	scan2 := func() []vItem {
+		out, err := c.Scan(vCtx, &dynamodb.ScanInput{TableName: aws.String("tb2")})
+		nd.Assert(err == nil, "scan2-noerr")
+		if err != nil {
+			return nil
+		}
+		return out.Items
+	}
 	before := vScanAll(c)
+	before2 := scan2()
 	tbl := aws.String(vTbl)
 	steps := nd.Param("steps", 1)
 	for step := 0; step < steps; step++ {
@@ -62,7 +75,19 @@ func VerifC15Failures() {
 		case 2:
 			names = map[string]string{"#unused": "v"}
 		}
-		switch nd.Choice("op", 9) {
+		reqs2 := []types.WriteRequest{
+			{DeleteRequest: &types.DeleteRequest{Key: vItem{"p": vS("k2")}}},
+			{PutRequest: &types.PutRequest{Item: vItem{"p": vS("n2"), "v": vS(x)}}},
+		}
+		twoTables := false
+		switch nd.Choice("op", 10) {
+		case 9:
+			batch, twoTables = true, true
+			var out *dynamodb.BatchWriteItemOutput
+			out, err = c.BatchWriteItem(vCtx, &dynamodb.BatchWriteItemInput{RequestItems: map[string][]types.WriteRequest{vTbl: reqs, "tb2": reqs2}})
+			if out != nil {
+				unprocessed = out.UnprocessedItems
+			}
 		case 0:
 			_, err = c.PutItem(vCtx, &dynamodb.PutItemInput{TableName: tbl, Item: vItem{"p": vS("k"), "v": vS(x)}, ExpressionAttributeNames: names})
 		case 1:
@@ -104,6 +129,21 @@ func VerifC15Failures() {
 				}
 				nd.Assert(puts == 1 && dels == 1, "C15-batch-unprocessed-requests-are-the-originals")
 			}
+			if twoTables {
+				nd.Reach("two-table-batch-under-internal-failure")
+				puts, dels := 0, 0
+				for _, u := range unprocessed["tb2"] {
+					if u.PutRequest != nil && u.DeleteRequest == nil && vSameItem(u.PutRequest.Item, vItem{"p": vS("n2"), "v": vS(x)}) {
+						puts++
+					}
+					if u.DeleteRequest != nil && u.PutRequest == nil && vSameItem(u.DeleteRequest.Key, vItem{"p": vS("k2")}) {
+						dels++
+					}
+				}
+				nd.Assert(len(unprocessed["tb2"]) == 2 && puts == 1 && dels == 1 && len(unprocessed) == 2, "C15-batch-unprocessed-requests-are-the-originals-per-table")
+			} else {
+				nd.Assert(len(unprocessed) == 1, "C15-batch-unprocessed-only-for-tables-named")
+			}
 		} else {
 			nd.Assert(vIsConfigured(err, internal), "C15-data-call-returns-configured-error")
 		}
@@ -114,6 +154,7 @@ func VerifC15Failures() {
 			DeactiveForceFailure(c)
 		}
 		nd.Assert(vSameItems(before, vScanAll(c)), "C15-failing-call-changes-nothing")
+		nd.Assert(vSameItems(before2, scan2()), "C15-failing-call-changes-nothing-in-the-other-table")
 	}
 	// after deactivation everything works again
 	nd.Assert(vPut(c, vItem{"p": vS("k"), "v": vS("after")}) == nil, "C15-works-after-deactivation")
